@@ -67,17 +67,6 @@ theorem flushed_exactly_once (cfg : Cfg) (ops : List Op) :
   let h := inv2_run ops (inv2_init cfg)
   ⟨h.histEq, h.mbufEq⟩
 
-theorem down_pairwise : ∀ n, (down n).Pairwise (· > ·) ∧ ∀ g ∈ down n, 1 ≤ g ∧ g ≤ n
-  | 0 => ⟨List.Pairwise.nil, by simp [down]⟩
-  | n + 1 => by
-    obtain ⟨h1, h2⟩ := down_pairwise n
-    refine ⟨List.Pairwise.cons (fun g hg => by have := (h2 g hg).2; omega) h1, ?_⟩
-    intro g hg
-    simp only [down, List.mem_cons] at hg
-    rcases hg with hg | hg
-    · omega
-    · have := h2 g hg; omega
-
 /-- the generations handed to the flush function are 1, 2, 3, … in call order (newest first: gen, gen-1, …, 1):
     strictly increasing, no gaps, and `generation` is the number of calls -/
 theorem generations_strict (cfg : Cfg) (ops : List Op) :
